@@ -302,8 +302,8 @@ def isLineDoc (s : Str) : Bool :=
   | '/' :: '/' :: '!' :: _ => true
   | _ => false
 
-/-- every line of the text is a line doc comment -/
-def allLineDoc (s : Str) : Bool := (RF.Opt.splitLF s).all isLineDoc
+/-- every line of the text is a line doc comment (behind its indentation) -/
+def allLineDoc (s : Str) : Bool := (RF.Opt.splitLF s).all (fun l => isLineDoc (RF.Lists.trimStart l))
 
 /-! ## what the result must say (squeezed: without white space) -/
 
@@ -344,10 +344,12 @@ def expectSeg (e : Env) : Seg → Str
 def groupEnv (e : Env) : Env :=
   { e with rdc := some, rc := some, fmtDerive := fun _ _ => some [] }
 
-/-- drop a comma that stands directly in front of a closing parenthesis (a vertical list keeps or adds it) -/
+/-- drop a comma that stands directly in front of a closing parenthesis or angle bracket (a vertical list keeps or
+adds it) -/
 def dropTrailComma : Str → Str
   | [] => []
   | ',' :: ')' :: r => ')' :: dropTrailComma r
+  | ',' :: '>' :: r => '>' :: dropTrailComma r
   | c :: r => c :: dropTrailComma r
 
 /-- The oracle on a text `out` the real code produced for `attrs` (`pre` / `post`: the glued text around them): it
@@ -357,7 +359,7 @@ def oracleExact (e : Env) (attrs : List Attr) (pre post out : Str) : Bool :=
   let written := attrs.flatMap (fun a => sq a.snippet ++ sq a.gap)
   let o := dropTrailComma (sq out)
   match rewriteSegs (groupEnv e) (fun a => some a.snippet) attrs with
-  | none => false
+  | none => o == dropTrailComma (sq pre ++ written ++ sq post)
   | some segs =>
     o == dropTrailComma (sq pre ++ segs.flatMap (expectSeg e) ++ sq post) ||
     o == dropTrailComma (sq pre ++ written ++ sq post)
